@@ -1,7 +1,8 @@
 // C16 harness: runs operation scripts against muscle::Queue<int> (trivial items) and
 // muscle::Queue<Tracked> (owning items), printing results, user-visible contents and the
-// internal representation (_queue kind, _itemCount, _headIndex, _tailIndex, _queueSize, raw slots)
-// after every operation, in the same canonical text as the extracted Coq model.
+// internal representation (_queue kind, _itemCount, _headIndex, _tailIndex, _queueSize, raw slots,
+// the in-object array while it is not the active one) after every operation, in the same canonical
+// text as the extracted Coq model.  Case kinds: T / O (one queue), T2 / O2 (two queues A and B).
 #include <stdio.h>
 #include <stdlib.h>
 #include <string.h>
@@ -9,6 +10,7 @@
 #include <vector>
 #include <sstream>
 #include <iostream>
+#include <algorithm>
 
 #define private public
 #define protected public
@@ -20,7 +22,7 @@ using namespace muscle;
 
 static long g_live = 0;   // live Tracked objects (constructor/destructor balance)
 
-struct Tracked   // non-trivial => IsPerItemClearNecessary() is true ("owning" item kind)
+struct Tracked   // non-trivial => IsPerItemClearNecessary() is true ("owning" item kind); copy-assignment only
 {
    Tracked() : _v(0) {g_live++;}
    Tracked(int v) : _v(v) {g_live++;}
@@ -52,95 +54,166 @@ static std::vector<int> ints(const std::string & s)
 
 template<class T> static void show_state(std::ostringstream & o, const Queue<T> & q, bool owning)
 {
-   const char * st = (q._queue == NULL) ? "N" : ((q._queue == q._smallQueue) ? "S" : "H");
+   const bool small = (q._queue == q._smallQueue);
+   const char * st = (q._queue == NULL) ? "N" : (small ? "S" : "H");
    o << st << "/" << q._itemCount << "/";
    if (q._itemCount == 0) o << "_/_"; else o << q._headIndex << "/" << q._tailIndex;
    o << "/" << q._queueSize << "/[";
    for (uint32 i=0; i<q.GetNumItems(); i++) {if (i) o << ","; o << val(q[i]);}
    o << "]/{";
    if (owning) for (uint32 i=0; i<q._queueSize; i++) {if (i) o << ","; o << val(q._queue[i]);}
-   o << "}";
+   o << "}<";
+   if ((owning)&&(!small)) for (uint32 i=0; i<ARRAYITEMS(q._smallQueue); i++) {if (i) o << ","; o << val(q._smallQueue[i]);}
+   o << ">";
 }
 
-template<class T> static bool run_case(int k, const std::string & body, bool owning)
+typedef std::vector<int> Ideal;
+static Ideal slice(const Ideal & src, size_t start, size_t num)
+{
+   Ideal r;
+   for (size_t i=start; (i<src.size())&&(r.size()<num); i++) r.push_back(src[i]);
+   return r;
+}
+
+// one single-queue operation on (q, ideal); returns false on a syntax error
+template<class T> static bool apply_op(Queue<T> & q, Ideal & ideal, const std::string & ops, std::ostringstream & o)
+{
+   std::vector<std::string> a = split(ops, ':');
+   const std::string & c = a[0];
+   #define I(k) atoi(a[k].c_str())
+   #define U(k) ((uint32)atoi(a[k].c_str()))
+   if (c == "at") {o << (q.AddTail(T(I(1))).IsOK() ? "ok" : "err"); ideal.push_back(I(1));}
+   else if (c == "ah") {o << (q.AddHead(T(I(1))).IsOK() ? "ok" : "err"); ideal.insert(ideal.begin(), I(1));}
+   else if (c == "rh") {T v; if (q.RemoveHead(v).IsOK()) o << "v" << val(v); else o << "none"; if (!ideal.empty()) ideal.erase(ideal.begin());}
+   else if (c == "rt") {T v; if (q.RemoveTail(v).IsOK()) o << "v" << val(v); else o << "none"; if (!ideal.empty()) ideal.pop_back();}
+   else if (c == "rhm") {o << "n" << q.RemoveHeadMulti(U(1)); size_t m = std::min((size_t)U(1), ideal.size()); ideal.erase(ideal.begin(), ideal.begin()+m);}
+   else if (c == "rtm") {o << "n" << q.RemoveTailMulti(U(1)); size_t m = std::min((size_t)U(1), ideal.size()); ideal.erase(ideal.end()-m, ideal.end());}
+   else if (c == "ra") {T v; if (q.RemoveItemAt(U(1), v).IsOK()) o << "v" << val(v); else o << "none"; if (U(1) < ideal.size()) ideal.erase(ideal.begin()+U(1));}
+   else if (c == "ia") {o << (q.InsertItemAt(U(1), T(I(2))).IsOK() ? "ok" : "err"); size_t p = std::min((size_t)U(1), ideal.size()); ideal.insert(ideal.begin()+p, I(2));}
+   else if (c == "rp") {o << (q.ReplaceItemAt(U(1), T(I(2))).IsOK() ? "ok" : "err"); if (U(1) < ideal.size()) ideal[U(1)] = I(2);}
+   else if (c == "g")  {T v; if (q.GetItemAt(U(1), v).IsOK()) o << "v" << val(v); else o << "none";}
+   else if (c == "cl") {q.Clear(I(1) != 0); o << "-"; ideal.clear();}
+   else if (c == "es") {o << (q.EnsureSize(U(1), I(2)!=0, U(3), I(4)!=0).IsOK() ? "ok" : "err"); if (I(2)) ideal.resize(U(1), 0);}
+   else if (c == "sw") {if ((U(1) < q.GetNumItems())&&(U(2) < q.GetNumItems())) {q.Swap(U(1), U(2)); std::swap(ideal[U(1)], ideal[U(2)]);} o << "-";}
+   else if (c == "rv") {q.ReverseItemOrdering(U(1), U(2)); o << "-";
+                        if ((U(1) < U(2))&&(!ideal.empty())) {size_t t = std::min((size_t)U(2)-1, ideal.size()-1); size_t f = U(1); while(f < t) std::swap(ideal[f++], ideal[t--]);}}
+   else if (c == "nm") {q.Normalize(); o << "-";}
+   else if (c == "io") {o << "i" << q.IndexOf(T(I(1)), U(2), U(3));}
+   else if (c == "lo") {o << "i" << q.LastIndexOf(T(I(1)), U(2), U(3));}
+   else if ((c == "atm")||(c == "ahm")||(c == "cf"))
+   {
+      std::vector<int> xs = ints(a.size() > 1 ? a[1] : "");
+      std::vector<T> ts; for (size_t i=0; i<xs.size(); i++) ts.push_back(T(xs[i]));
+      T dummy;
+      const T * p = ts.empty() ? &dummy : &ts[0];
+      if (c == "atm") {o << (q.AddTailMulti(p, (uint32)ts.size()).IsOK() ? "ok" : "err"); ideal.insert(ideal.end(), xs.begin(), xs.end());}
+      else if (c == "ahm") {o << (q.AddHeadMulti(p, (uint32)ts.size()).IsOK() ? "ok" : "err"); ideal.insert(ideal.begin(), xs.begin(), xs.end());}
+      else {Queue<T> other; for (size_t i=0; i<ts.size(); i++) (void) other.AddTail(ts[i]); o << (q.CopyFrom(other).IsOK() ? "ok" : "err"); ideal = xs;}
+   }
+   else if (c == "iia")
+   {
+      std::vector<int> xs = ints(a.size() > 2 ? a[2] : "");
+      std::vector<T> ts; for (size_t i=0; i<xs.size(); i++) ts.push_back(T(xs[i]));
+      T dummy;
+      o << (q.InsertItemsAt(U(1), ts.empty() ? &dummy : &ts[0], (uint32)ts.size()).IsOK() ? "ok" : "err");
+      size_t p = std::min((size_t)U(1), ideal.size()); ideal.insert(ideal.begin()+p, xs.begin(), xs.end());
+   }
+   else if (c == "rfi") {o << (q.RemoveFirstInstanceOf(T(I(1))).IsOK() ? "ok" : "err"); for (size_t i=0; i<ideal.size(); i++) if (ideal[i]==I(1)) {ideal.erase(ideal.begin()+i); break;}}
+   else if (c == "rli") {o << (q.RemoveLastInstanceOf(T(I(1))).IsOK() ? "ok" : "err"); for (size_t i=ideal.size(); i>0; i--) if (ideal[i-1]==I(1)) {ideal.erase(ideal.begin()+(i-1)); break;}}
+   else if (c == "rai") {o << "n" << q.RemoveAllInstancesOf(T(I(1))); std::vector<int> nw; for (size_t i=0; i<ideal.size(); i++) if (ideal[i]!=I(1)) nw.push_back(ideal[i]); ideal = nw;}
+   else return false;
+   return true;
+}
+
+// one operation that involves both queues (or a queue as its own argument); this = A (t=0) or B (t=1)
+template<class T> static bool apply_op2(Queue<T> & qa, Ideal & ia, Queue<T> & qb, Ideal & ib, const std::string & ops, std::ostringstream & o)
+{
+   std::vector<std::string> a = split(ops, ':');
+   const std::string & c = a[0];
+   const bool tb = (a.size() > 1)&&(a[1] == "1");
+   Queue<T> & t = tb ? qb : qa;  Ideal & it = tb ? ib : ia;
+   Queue<T> & r = tb ? qa : qb;  Ideal & ir = tb ? ia : ib;
+   if (c == "sc") {t.SwapContents(r); std::swap(it, ir); o << "-";}
+   else if (c == "pl") {t = std::move(r); it = ir; ir.clear(); o << "-";}
+   else if (c == "cq") {o << (t.CopyFrom(r).IsOK() ? "ok" : "err"); it = ir;}
+   else if (c == "as") {t = r; it = ir; o << "-";}
+   else if (c == "eq") {o << ((qa == qb) ? "ok" : "err");}
+   else if (c == "stw") {o << (t.StartsWith(r) ? "ok" : "err");}
+   else if (c == "enw") {o << (t.EndsWith(r) ? "ok" : "err");}
+   else if ((c == "atq")||(c == "ahq"))
+   {
+      const bool self = (a[2] == "1");
+      const Ideal xs = slice(self ? it : ir, U(3), U(4));
+      if (c == "atq") {o << (t.AddTailMulti(self ? t : r, U(3), U(4)).IsOK() ? "ok" : "err"); it.insert(it.end(), xs.begin(), xs.end());}
+                 else {o << (t.AddHeadMulti(self ? t : r, U(3), U(4)).IsOK() ? "ok" : "err"); it.insert(it.begin(), xs.begin(), xs.end());}
+   }
+   else if (c == "iiq")
+   {
+      const bool self = (a[2] == "1");
+      const Ideal xs = slice(self ? it : ir, U(4), U(5));
+      o << (t.InsertItemsAt(U(3), self ? t : r, U(4), U(5)).IsOK() ? "ok" : "err");
+      size_t p = std::min((size_t)U(3), it.size()); it.insert(it.begin()+p, xs.begin(), xs.end());
+   }
+   else return false;
+   return true;
+}
+
+// ---- property oracle, evaluated on the implementation after every operation
+template<class T> static bool oracle(int k, const char * name, const Queue<T> & q, const Ideal & ideal, bool owning, size_t n, const std::string & c, std::ostringstream & orc)
+{
+   bool same = (q.GetNumItems() == ideal.size());
+   for (size_t i=0; same && i<ideal.size(); i++) if (val(q[(uint32)i]) != ideal[i]) same = false;
+   if (!same)
+   {
+      orc << k << " ORACLE FAIL queue " << name << " differs from ideal sequence after op#" << n << " " << c << " (kind " << (owning?"owning":"trivial") << ")\n";
+      return false;
+   }
+   if (owning)
+   {
+      // stale-item clause: every slot outside the live window holds the default item ...
+      std::vector<bool> live(q._queueSize, false);
+      for (uint32 i=0; i<q._itemCount; i++) live[q.InternalizeIndex(i)] = true;
+      for (uint32 i=0; i<q._queueSize; i++) if ((!live[i])&&(val(q._queue[i]) != 0))
+      {
+         orc << k << " ORACLE FAIL stale item retained outside the window of " << name << " after op#" << n << " " << c << "\n";
+         return false;
+      }
+      // ... and so does the in-object array while it is not in use
+      if (q._queue != q._smallQueue) for (uint32 i=0; i<ARRAYITEMS(q._smallQueue); i++) if (val(q._smallQueue[i]) != 0)
+      {
+         orc << k << " ORACLE FAIL stale item retained in the unused in-object array of " << name << " after op#" << n << " " << c << "\n";
+         return false;
+      }
+   }
+   return true;
+}
+
+template<class T> static bool run_case(int k, const std::string & body, bool owning, bool two)
 {
    std::ostringstream o;
    std::ostringstream orc;
    {
-      Queue<T> q;
-      std::vector<int> ideal;    // the harness's own ideal sequence: the property oracle
+      Queue<T> qa, qb;
+      Ideal ia, ib;             // the harness's own ideal sequences: the property oracle
       std::vector<std::string> ops = split(body, ';');
       for (size_t n=0; n<ops.size(); n++)
       {
          if (ops[n].empty()) continue;
-         std::vector<std::string> a = split(ops[n], ':');
-         const std::string & c = a[0];
-         #define I(k) atoi(a[k].c_str())
-         #define U(k) ((uint32)atoi(a[k].c_str()))
-         if (c == "at") {o << (q.AddTail(T(I(1))).IsOK() ? "ok" : "err"); ideal.push_back(I(1));}
-         else if (c == "ah") {o << (q.AddHead(T(I(1))).IsOK() ? "ok" : "err"); ideal.insert(ideal.begin(), I(1));}
-         else if (c == "rh") {T v; if (q.RemoveHead(v).IsOK()) o << "v" << val(v); else o << "none"; if (!ideal.empty()) ideal.erase(ideal.begin());}
-         else if (c == "rt") {T v; if (q.RemoveTail(v).IsOK()) o << "v" << val(v); else o << "none"; if (!ideal.empty()) ideal.pop_back();}
-         else if (c == "rhm") {o << "n" << q.RemoveHeadMulti(U(1)); size_t m = std::min((size_t)U(1), ideal.size()); ideal.erase(ideal.begin(), ideal.begin()+m);}
-         else if (c == "rtm") {o << "n" << q.RemoveTailMulti(U(1)); size_t m = std::min((size_t)U(1), ideal.size()); ideal.erase(ideal.end()-m, ideal.end());}
-         else if (c == "ra") {T v; if (q.RemoveItemAt(U(1), v).IsOK()) o << "v" << val(v); else o << "none"; if (U(1) < ideal.size()) ideal.erase(ideal.begin()+U(1));}
-         else if (c == "ia") {o << (q.InsertItemAt(U(1), T(I(2))).IsOK() ? "ok" : "err"); size_t p = std::min((size_t)U(1), ideal.size()); ideal.insert(ideal.begin()+p, I(2));}
-         else if (c == "rp") {o << (q.ReplaceItemAt(U(1), T(I(2))).IsOK() ? "ok" : "err"); if (U(1) < ideal.size()) ideal[U(1)] = I(2);}
-         else if (c == "g")  {T v; if (q.GetItemAt(U(1), v).IsOK()) o << "v" << val(v); else o << "none";}
-         else if (c == "cl") {q.Clear(I(1) != 0); o << "-"; ideal.clear();}
-         else if (c == "es") {o << (q.EnsureSize(U(1), I(2)!=0, U(3), I(4)!=0).IsOK() ? "ok" : "err"); if (I(2)) ideal.resize(U(1), 0);}
-         else if (c == "sw") {if ((U(1) < q.GetNumItems())&&(U(2) < q.GetNumItems())) {q.Swap(U(1), U(2)); std::swap(ideal[U(1)], ideal[U(2)]);} o << "-";}
-         else if (c == "rv") {q.ReverseItemOrdering(U(1), U(2)); o << "-";
-                              if ((U(1) < U(2))&&(!ideal.empty())) {size_t t = std::min((size_t)U(2)-1, ideal.size()-1); size_t f = U(1); while(f < t) std::swap(ideal[f++], ideal[t--]);}}
-         else if (c == "nm") {q.Normalize(); o << "-";}
-         else if (c == "io") {o << "i" << q.IndexOf(T(I(1)), U(2), U(3));}
-         else if (c == "lo") {o << "i" << q.LastIndexOf(T(I(1)), U(2), U(3));}
-         else if ((c == "atm")||(c == "ahm")||(c == "cf"))
+         std::string c = split(ops[n], ':')[0];
+         bool ok;
+         if ((two)&&(ops[n].compare(0, 2, "b.") == 0)) ok = apply_op(qb, ib, ops[n].substr(2), o);
+         else
          {
-            std::vector<int> xs = ints(a.size() > 1 ? a[1] : "");
-            std::vector<T> ts; for (size_t i=0; i<xs.size(); i++) ts.push_back(T(xs[i]));
-            T dummy;
-            const T * p = ts.empty() ? &dummy : &ts[0];
-            if (c == "atm") {o << (q.AddTailMulti(p, (uint32)ts.size()).IsOK() ? "ok" : "err"); ideal.insert(ideal.end(), xs.begin(), xs.end());}
-            else if (c == "ahm") {o << (q.AddHeadMulti(p, (uint32)ts.size()).IsOK() ? "ok" : "err"); ideal.insert(ideal.begin(), xs.begin(), xs.end());}
-            else {Queue<T> other; for (size_t i=0; i<ts.size(); i++) (void) other.AddTail(ts[i]); o << (q.CopyFrom(other).IsOK() ? "ok" : "err"); ideal = xs;}
+            ok = apply_op(qa, ia, ops[n], o);
+            if ((!ok)&&(two)) ok = apply_op2(qa, ia, qb, ib, ops[n], o);
          }
-         else if (c == "iia")
-         {
-            std::vector<int> xs = ints(a.size() > 2 ? a[2] : "");
-            std::vector<T> ts; for (size_t i=0; i<xs.size(); i++) ts.push_back(T(xs[i]));
-            T dummy;
-            o << (q.InsertItemsAt(U(1), ts.empty() ? &dummy : &ts[0], (uint32)ts.size()).IsOK() ? "ok" : "err");
-            size_t p = std::min((size_t)U(1), ideal.size()); ideal.insert(ideal.begin()+p, xs.begin(), xs.end());
-         }
-         else if (c == "rfi") {o << (q.RemoveFirstInstanceOf(T(I(1))).IsOK() ? "ok" : "err"); for (size_t i=0; i<ideal.size(); i++) if (ideal[i]==I(1)) {ideal.erase(ideal.begin()+i); break;}}
-         else if (c == "rli") {o << (q.RemoveLastInstanceOf(T(I(1))).IsOK() ? "ok" : "err"); for (size_t i=ideal.size(); i>0; i--) if (ideal[i-1]==I(1)) {ideal.erase(ideal.begin()+(i-1)); break;}}
-         else if (c == "rai") {o << "n" << q.RemoveAllInstancesOf(T(I(1))); std::vector<int> nw; for (size_t i=0; i<ideal.size(); i++) if (ideal[i]!=I(1)) nw.push_back(ideal[i]); ideal = nw;}
-         else {fprintf(stderr, "bad op [%s]\n", ops[n].c_str()); exit(2);}
+         if (!ok) {fprintf(stderr, "bad op [%s]\n", ops[n].c_str()); exit(2);}
          o << " ";
-         show_state(o, q, owning);
+         show_state(o, qa, owning);
+         if (two) {o << "|"; show_state(o, qb, owning);}
          o << ";";
-
-         // ---- property oracle, evaluated on the implementation after every operation
-         bool same = (q.GetNumItems() == ideal.size());
-         for (size_t i=0; same && i<ideal.size(); i++) if (val(q[(uint32)i]) != ideal[i]) same = false;
-         if (!same)
-         {
-            orc << k << " ORACLE FAIL queue differs from ideal sequence after op#" << n << " " << c << " (kind " << (owning?"owning":"trivial") << ")\n";
-            break;
-         }
-         if (owning)
-         {
-            // stale-item clause: every slot outside the live window holds the default item
-            std::vector<bool> live(q._queueSize, false);
-            for (uint32 i=0; i<q._itemCount; i++) live[q.InternalizeIndex(i)] = true;
-            for (uint32 i=0; i<q._queueSize; i++) if ((!live[i])&&(val(q._queue[i]) != 0))
-            {
-               orc << k << " ORACLE FAIL stale item retained outside the window after op#" << n << " " << c << "\n";
-               break;
-            }
-            if (!orc.str().empty()) break;
-         }
+         if (!oracle(k, "A", qa, ia, owning, n, c, orc)) break;
+         if ((two)&&(!oracle(k, "B", qb, ib, owning, n, c, orc))) break;
       }
    }
    printf("%d %s\n", k, o.str().c_str());
@@ -163,8 +236,9 @@ int main()
       {
          const std::string kind = line.substr(0, p);
          const std::string body = line.substr(p+1);
-         if (kind == "O") run_case<Tracked>(k, body, true);
-                     else run_case<int>(k, body, false);
+         const bool two = (kind.size() > 1)&&(kind[1] == '2');
+         if (kind[0] == 'O') run_case<Tracked>(k, body, true, two);
+                        else run_case<int>(k, body, false, two);
       }
       k++;
    }
